@@ -317,6 +317,14 @@ func areaBranch(raw, maxErr float64, norm func() bool) (float64, int) {
 	return area, 0
 }
 
+// corrInvert: the model's Invert applied to the loop as observed before the call must give the
+// vertices and originInside observed after the call.
+func (st *state) corrInvert(label string, before, after *s2.Loop) {
+	L := loopTerm(before.Vertices(), before.ContainsOrigin(), 0, before.RectBound().Lng.Length())
+	st.c.Check("Invert "+label, fmt.Sprintf("(let r := Invert %s %s in list_eqb s2_Point_eqbits (lp_vs r) %s && Bool.eqb (lp_origin_inside r) %s)",
+		vkit.F(after.RectBound().Lng.Length()), L, pts(after.Vertices()), vkit.B(after.ContainsOrigin())))
+}
+
 // corrLoop emits the [T] cases of one loop object.
 func (st *state) corrLoop(label string, l *s2.Loop) {
 	c := st.c
@@ -491,6 +499,7 @@ func (st *state) processLoop(g genLoop, full bool) {
 	if full {
 		st.corrLoop(key, l)
 		st.corrLoop(key+" inverted", li)
+		st.corrInvert(key, l, li)
 		if n <= 12 {
 			st.corrLoop(key+" rot1", s2.LoopFromPoints(rot(v, 1+rng.Intn(n-1))))
 		}
@@ -499,9 +508,9 @@ func (st *state) processLoop(g genLoop, full bool) {
 
 func (st *state) triangles(budget int) {
 	c, rng := st.c, st.rng
-	for k := 0; k < 70*budget; k++ {
+	for k := 0; k < 80*budget; k++ {
 		var a, b, cc s2.Point
-		switch k % 7 {
+		switch k % 8 {
 		case 0:
 			a, b, cc = randPoint(rng), randPoint(rng), randPoint(rng)
 		case 1: // small
@@ -528,13 +537,18 @@ func (st *state) triangles(budget int) {
 		case 5: // axis points, shared coordinates (zeros in the differences)
 			ax := []s2.Point{{Vector: r3.Vector{X: 1}}, {Vector: r3.Vector{Y: 1}}, {Vector: r3.Vector{Z: 1}}, {Vector: r3.Vector{X: -1}}, s2.PointFromCoords(1, 1, 0), s2.PointFromCoords(0, 1, 1), s2.PointFromCoords(1, 0, -1)}
 			a, b, cc = ax[rng.Intn(len(ax))], ax[rng.Intn(len(ax))], ax[rng.Intn(len(ax))]
+		case 7: // around the s >= 3e-4 switch between l'Huilier and Girard, as collinear as rounding allows
+			a = randPoint(rng)
+			d := []float64{2.9e-4, 3.1e-4, 6e-4, 1e-3, 2e-3, 2.9e-3, 3.1e-3, 1e-2}[rng.Intn(8)]
+			b = s2.InterpolateAtDistance(s1.Angle(d), a, randPoint(rng))
+			cc = ulpPoint(s2.Interpolate(rng.Range(0.3, 0.7), a, b), rng.Intn(3)-1, rng.Intn(3)-1, rng.Intn(3)-1)
 		case 6: // underflow scale: points 5e-324..1e-160 apart
 			tiny := []float64{0, 1e-300, -1e-300, 1e-200, -1e-200, 1e-162, 3e-162, -1e-162, 5e-324, -5e-324}
 			a = s2.Point{Vector: r3.Vector{X: 1}}
 			b = s2.Point{Vector: r3.Vector{X: 1, Y: tiny[rng.Intn(len(tiny))], Z: tiny[rng.Intn(len(tiny))]}}
 			cc = s2.Point{Vector: r3.Vector{X: 1, Y: tiny[rng.Intn(len(tiny))], Z: tiny[rng.Intn(len(tiny))]}}
 		}
-		c.Class(fmt.Sprintf("triangle kind %d", k%7))
+		c.Class(fmt.Sprintf("triangle kind %d", k%8))
 		key := fmt.Sprintf("tri %x %x %x", math.Float64bits(a.X), math.Float64bits(b.Y), math.Float64bits(cc.Z))
 		c.Eval(key, true)
 		A, B, C := pt(a), pt(b), pt(cc)
@@ -555,9 +569,9 @@ func (st *state) triangles(budget int) {
 		if x, y := s2.Angle(a, b, cc), s2.Angle(cc, b, a); !bitsEq(float64(x), float64(y)) && !(math.IsNaN(float64(x)) && math.IsNaN(float64(y))) {
 			c.Violate("Angle.symmetry", "Angle(a,b,c) != Angle(c,b,a)", map[string]interface{}{"a": []float64{a.X, a.Y, a.Z}, "b": []float64{b.X, b.Y, b.Z}, "c": []float64{cc.X, cc.Y, cc.Z}})
 		}
-		// (k%7 == 6: points closer than 1e-160 are outside the property's domain — PointCross products underflow there
+		// (k%8 == 6: points closer than 1e-160 are outside the property's domain — PointCross products underflow there
 		// and TurnAngle(a,b,c) = -0 vs TurnAngle(c,b,a) = pi is observed; only the model correspondence is checked)
-		if a != b && b != cc && a != cc && k%7 != 6 {
+		if a != b && b != cc && a != cc && k%8 != 6 {
 			if x, y := s2.TurnAngle(a, b, cc), s2.TurnAngle(cc, b, a); !bitsEq(float64(x), -float64(y)) {
 				c.Violate("TurnAngle.reverse", "TurnAngle(a,b,c) != -TurnAngle(c,b,a) for distinct points", map[string]interface{}{"a": []string{fmt.Sprintf("%x", a.X), fmt.Sprintf("%x", a.Y), fmt.Sprintf("%x", a.Z)}, "b": []string{fmt.Sprintf("%x", b.X), fmt.Sprintf("%x", b.Y), fmt.Sprintf("%x", b.Z)}, "c": []string{fmt.Sprintf("%x", cc.X), fmt.Sprintf("%x", cc.Y), fmt.Sprintf("%x", cc.Z)}, "abc": fmt.Sprintf("%x", float64(x)), "cba": fmt.Sprintf("%x", float64(y))})
 			}
@@ -657,6 +671,7 @@ func run(c *vkit.Collector, rng *vkit.Rng, budget int) {
 		inv := s2.LoopFromPoints(append([]s2.Point{}, sp.l.Vertices()...))
 		inv.Invert()
 		st.corrLoop(sp.name+" inverted", inv)
+		st.corrInvert(sp.name, sp.l, inv)
 		if !bitsEq(inv.TurningAngle(), -ta) {
 			c.Violate("Loop.TurningAngle.invert", "empty/full loop: inverted turning angle is not the negation", sp.name)
 		}
